@@ -723,6 +723,105 @@ pub fn repeated_pattern_strategy(gzip: bool) -> BoxedStrategy<SCase> {
         .boxed()
 }
 
+/// Two repeated patterns with a few operations in between (many short flushed chunks, one full
+/// chunk, many short ones again, ...), then a random suffix.
+pub fn two_phase_pattern_strategy(gzip: bool) -> BoxedStrategy<SCase> {
+    (chunk_strategy(gzip), 1u32..=9, payload_strategy(), 0usize..=2)
+        .prop_flat_map(move |(chunk, level, payload, extra_polls)| {
+            (
+                vec(op_strategy(chunk, false, gzip), 1..=2),
+                2usize..=48,
+                vec(op_strategy(chunk, false, gzip), 0..=3),
+                vec(op_strategy(chunk, false, gzip), 1..=2),
+                2usize..=48,
+                vec(op_strategy(chunk, false, gzip), 0..4),
+                Just((chunk, level, payload, extra_polls)),
+            )
+        })
+        .prop_map(move |(p1, t1, mid, p2, t2, suffix, (chunk, level, payload, extra_polls))| {
+            let mut ops = Vec::new();
+            let mut bytes = 0u64;
+            let mut push = |o: &Op, ops: &mut Vec<Op>| -> bool {
+                match o {
+                    Op::Write(n) | Op::WriteAll(n) => bytes += *n as u64,
+                    Op::WriteV(a, b) => bytes += *a as u64 + *b as u64,
+                    _ => {}
+                }
+                if bytes > 600_000 || ops.len() > 260 {
+                    return false;
+                }
+                ops.push(*o);
+                true
+            };
+            'a: for _ in 0..t1 {
+                for o in &p1 {
+                    if !push(o, &mut ops) {
+                        break 'a;
+                    }
+                }
+            }
+            for o in &mid {
+                push(o, &mut ops);
+            }
+            'b: for _ in 0..t2 {
+                for o in &p2 {
+                    if !push(o, &mut ops) {
+                        break 'b;
+                    }
+                }
+            }
+            ops.extend(suffix);
+            SCase { gzip: if gzip { Some(level) } else { None }, chunk, payload, ops, extra_polls }
+        })
+        .boxed()
+}
+
+/// Histories that begin with a large backlog the consumer has not polled (64 KiB to 5 MiB, in one
+/// `write_all` or in several writes), continue with a few operations and end with the drop.
+pub fn backlog_strategy(gzip: bool) -> BoxedStrategy<SCase> {
+    (
+        prop_oneof![2 => proptest::sample::select(&[64usize, 1000, 4096, 65_536][..]), 1 => chunk_strategy(gzip)],
+        proptest::sample::select(&[65_536u32, (1 << 20) - 4096, 1 << 20, (1 << 20) + 4097, (2 << 20) + 3, 5 << 20][..]),
+        0u8..3,
+        1u32..=9,
+    )
+        .prop_flat_map(move |(chunk, backlog, how, level)| {
+            let chunk = chunk.max(16);
+            (vec(op_strategy(chunk, false, gzip), 0..8), Just((chunk, backlog, how, level)), 0usize..=2)
+        })
+        .prop_map(move |(rest, (chunk, backlog, how, level), extra_polls)| {
+            let c = chunk as u32;
+            let mut ops = match how {
+                0 => vec![Op::WriteAll(backlog)],
+                // whole chunks only, then the remainder
+                1 => vec![Op::WriteAll(backlog / c * c), Op::WriteAll(backlog % c)],
+                _ => vec![Op::WriteAll(backlog / 2), Op::Write(c.min(7)), Op::Flush, Op::WriteAll(backlog / 2)],
+            };
+            // keep the backlog unread for a while: polls only after the first three further operations
+            let mut k = 0;
+            for o in rest {
+                let is_poll = matches!(o, Op::FlushThenDrain | Op::PollUntilPending | Op::Poll(_));
+                if k < 3 && is_poll {
+                    ops.push(Op::Flush);
+                } else {
+                    ops.push(o);
+                }
+                k += 1;
+            }
+            SCase { gzip: if gzip { Some(level) } else { None }, chunk, payload: Payload::Hash, ops, extra_polls }
+        })
+        .boxed()
+}
+
+/// `n` writes of `s` bytes each, a flush that the consumer drains, one more byte: for every `n` the
+/// flush falls right after the write that makes the total cross whatever internal threshold there is.
+pub fn small_writes_then_flush(gzip: Option<u32>, chunk: usize, s: u32, n: usize) -> SCase {
+    let mut ops: Vec<Op> = std::iter::repeat(Op::Write(s)).take(n).collect();
+    ops.push(Op::FlushThenDrain);
+    ops.push(Op::Write(1));
+    SCase { gzip, chunk, payload: Payload::Hash, ops, extra_polls: 1 }
+}
+
 /// All op sequences of length `n` over the small alphabet for chunk size `c`.
 pub fn enumerate_ops(c: usize, n: usize, f: &mut dyn FnMut(&[Op])) {
     let mut alphabet: Vec<Op> = Vec::new();
@@ -755,7 +854,7 @@ pub fn enumerate_ops(c: usize, n: usize, f: &mut dyn FnMut(&[Op])) {
 pub const META_C08: Meta = Meta {
     id: "C08",
     level: "exploration",
-    rule: "Stateful/model-based: operation histories over {write(n), write_all(n), write_vectored(a, b), flush, flush-then-drain, poll-until-pending, poll(k), sample} with n in {0,1,c-1,c,c+1,2c,3c,random}, then drop, interpreted against streaming_body (identity coding) and an in-memory model of accepted bytes. Exhaustive for all histories of <= 4 operations (thorough 5) over the 19-op alphabet with chunk sizes {1,2,3,4,7}; proptest vec(op, 0..40) for chunk sizes up to 65536 with size classes {boundary sizes, nearly a full chunk, small fractions of a chunk, hundreds of chunks}, and 'repeated-pattern' histories (1-3 operations repeated 2-64 times). Payload bytes are a running position hash so order and duplication are visible. Non-trivial = >= 2 writes with a partial acceptance or a chunk boundary crossed, and a poll between two producer operations; distinct by fingerprint of history.",
+    rule: "Stateful/model-based: operation histories over {write(n), write_all(n), write_vectored(a, b), flush, flush-then-drain, poll-until-pending, poll(k), sample} with n in {0,1,c-1,c,c+1,2c,3c,random}, then drop, interpreted against streaming_body (identity coding) and an in-memory model of accepted bytes. Exhaustive for all histories of <= 4 operations (thorough 5) over the 19-op alphabet with chunk sizes {1,2,3,4,7}; proptest vec(op, 0..40) for chunk sizes up to 65536 with size classes {boundary sizes, nearly a full chunk, small fractions of a chunk, hundreds of chunks}, 'repeated-pattern' histories (1-3 operations repeated 2-64 times, or two patterns with a few operations between them), 'backlog' histories (64 KiB to 5 MiB written before the consumer polls, in one write_all or several writes), and for every n up to 420 (thorough 1400): n writes of s in {1,21,50,63} bytes, flush, drain, one more byte. Payload bytes are a running position hash so order and duplication are visible. Non-trivial = >= 2 writes with a partial acceptance or a chunk boundary crossed, and a poll between two producer operations; distinct by fingerprint of history.",
     assumptions: &["single-threaded interleaving of producer operations and consumer polls (schedules are C10's subject)"],
 };
 
@@ -823,7 +922,16 @@ pub fn run_c08(cx: &Cx) -> Acc {
     }));
     let n = cx.tier.pick(1u64, 20u64);
     acc.merge(par_proptest(cx, "random", 100_000 * n, || case_strategy(false, false, 40), |c, acc| check_stream(c, acc, false)));
-    acc.merge(par_proptest(cx, "repeated-pattern", 40_000 * n, || repeated_pattern_strategy(false), |c, acc| check_stream(c, acc, false)));
+    acc.merge(par_proptest(cx, "repeated-pattern", 40_000 * n, || prop_oneof![2 => repeated_pattern_strategy(false), 1 => two_phase_pattern_strategy(false)], |c, acc| check_stream(c, acc, false)));
+    acc.merge(par_proptest(cx, "backlog", 300 * n, || backlog_strategy(false), |c, acc| check_stream(c, acc, false)));
+    let max_writes = cx.tier.pick(420usize, 1400usize);
+    let units: Vec<(usize, u32)> = [64usize, 4096].iter().flat_map(|c| [1u32, 21, 50, 63].into_iter().map(move |s| (*c, s))).collect();
+    acc.merge(par_units(cx, "small-writes-then-flush", &units, true, "n writes of s bytes, flush, drain, one more byte: every n up to the bound, s in {1,21,50,63}, chunk {64,4096}", |cx, &(c, s), acc| {
+        for k in 1..=max_writes {
+            let case = small_writes_then_flush(None, c, s, k);
+            acc.run_case(cx, "small-writes-then-flush", &case, |acc| check_stream(&case, acc, false));
+        }
+    }));
     acc
 }
 
@@ -846,7 +954,16 @@ pub fn run_c09(cx: &Cx) -> Acc {
     }));
     let n = cx.tier.pick(1u64, 20u64);
     acc.merge(par_proptest(cx, "random", 20_000 * n, || case_strategy(true, false, 40), |c, acc| check_stream(c, acc, true)));
-    acc.merge(par_proptest(cx, "repeated-pattern", 6_000 * n, || repeated_pattern_strategy(true), |c, acc| check_stream(c, acc, true)));
+    acc.merge(par_proptest(cx, "repeated-pattern", 6_000 * n, || prop_oneof![2 => repeated_pattern_strategy(true), 1 => two_phase_pattern_strategy(true)], |c, acc| check_stream(c, acc, true)));
+    acc.merge(par_proptest(cx, "backlog", 60 * n, || backlog_strategy(true), |c, acc| check_stream(c, acc, true)));
+    let max_writes = cx.tier.pick(420usize, 1400usize);
+    let units: Vec<(usize, u32, u32)> = [64usize, 4096].iter().flat_map(|c| [1u32, 21, 50, 63].into_iter().flat_map(move |s| [1u32, 6].into_iter().map(move |l| (*c, s, l)))).collect();
+    acc.merge(par_units(cx, "small-writes-then-flush", &units, true, "n writes of s bytes, flush, drain (everything written must decode), one more byte: every n up to the bound, s in {1,21,50,63}, chunk {64,4096}, level {1,6}", |cx, &(c, s, level), acc| {
+        for k in 1..=max_writes {
+            let case = small_writes_then_flush(Some(level), c, s, k);
+            acc.run_case(cx, "small-writes-then-flush", &case, |acc| check_stream(&case, acc, true));
+        }
+    }));
     // Large payloads (up to 256 KiB) in a few writes.
     acc.merge(par_proptest(
         cx,
@@ -953,7 +1070,7 @@ fn check_trace(c: &SCase, acc: &mut Acc, c20: bool) -> Check {
 }
 
 fn trace_strategy() -> BoxedStrategy<SCase> {
-    prop_oneof![7 => case_strategy(false, true, 24), 1 => case_strategy(true, true, 8)].boxed()
+    prop_oneof![70 => case_strategy(false, true, 24), 10 => case_strategy(true, true, 8), 1 => backlog_strategy(false)].boxed()
 }
 
 pub fn run_for_c12_c20(cx: &Cx, c20: bool) -> Acc {
